@@ -348,7 +348,14 @@ def make_sets(rng, n):
             spans[1] = (spans[0][1], max(spans[1][1], spans[0][1]))
             spans.sort()
         caps = CaptionList([Caption(s, e, [T(f"cue {j}")]) for j, (s, e) in enumerate(spans)])
-        out.append((spans, CaptionSet({"en-US": caps})))
+        langs = {"en-US": caps}
+        if i % 3 == 2:
+            # a second language with its own instants, falling between and onto those of the first
+            lo = min(s for s, _ in spans)
+            fr = [(lo + (q + 1) * 700000 + 250, lo + (q + 1) * 700000 + 400250) for q in range(rng.choice([2, 3, 4]))]
+            if isinstance(lo, int):
+                langs["fr-FR"] = CaptionList([Caption(s, e, [T(f"fr {q}")]) for q, (s, e) in enumerate(fr)])
+        out.append((spans, CaptionSet(langs)))
     return out
 
 
@@ -376,7 +383,16 @@ def bounded_writers(ctx, b):
                "single": SinglePositioningDFXPWriter(), "sami": SAMIWriter(), "microdvd": MicroDVDWriter()}
     for spans, cs in sets:
         for name, w in writers.items():
-            out = w.write(cs)
+            use = cs
+            if name not in ("sami", "dfxp", "legacy", "single") and len(cs.get_languages()) > 1:
+                # SRT / MicroDVD write every language into one file, WebVTT the first one: these formats are
+                # checked on the first language alone
+                use = CaptionSet({"en-US": cs.get_captions("en-US")})
+            if name == "webvtt" and len(spans) > 1 and spans[0][0] % 5 == 4:
+                # WebVTT keeps a caption whose only text node is empty as a cue with a non-breaking space
+                cl = CaptionList([Caption(c_.start, c_.end, [T("" if j == 1 else f"cue {j}")]) for j, c_ in enumerate(cs.get_captions("en-US"))])
+                use = CaptionSet({"en-US": cl})
+            out = w.write(use)
             detail = None
             ok = True
             try:
@@ -412,6 +428,14 @@ def bounded_writers(ctx, b):
                                 ok = ok and cu["end"] // 1000 in expect_ms(e)
                         else:
                             ok = ok and cu["end"] is None      # no end written for the last cue
+                    if "fr-FR" in cs.get_languages():
+                        want_fr = [(c_.start // 1000, c_.end // 1000) for c_ in cs.get_captions("fr-FR")]
+                        got_fr = [(cu["start"] // 1000, cu["end"] // 1000 if cu["end"] is not None else None) for cu in d["cues"].get("fr-FR", [])]
+                        ok = ok and [g[0] for g in got_fr] == [w_[0] for w_ in want_fr] and \
+                            all(g[1] == w_[1] for g, w_ in zip(got_fr[:-1], want_fr[:-1])) and \
+                            (d["syncs"] == sorted(d["syncs"]) or any(e1 > s2 for (_, e1), (s2, _) in zip(spans, spans[1:])))
+                        if not ok:
+                            detail = {"second_language": got_fr, "expected": want_fr, "syncs": d["syncs"]}
                 else:
                     cues = parsers.parse_microdvd(out)
 
